@@ -347,7 +347,8 @@ Z_SPECIAL = [0, 1, -1, 2, -2, 3, 7, -8, LONG_MAX, LONG_MIN, LONG_MAX + 1, LONG_M
 SI_SPECIAL = [0, 1, -1, 2, -2, 3, -3, 4, -4, 8, 7, 127, -128, 32767, -32768, (1 << 31) - 1, -(1 << 31), LONG_MAX, LONG_MIN, LONG_MIN + 1, 1 << 62, -(1 << 62), 10, 12, 100]
 UI_SPECIAL = [0, 1, 2, 3, 4, 8, 255, 65535, (1 << 32) - 1, 1 << 32, 1 << 63, ULONG_MAX, ULONG_MAX - 1, LONG_MAX, 10, 12, 16, 1 << 40, 6]
 D_SPECIAL = [0.0, 1.0, -1.0, 2.0, -2.0, 3.0, 2.5, -2.5, 0.5, -0.5, 0.75, 1e20, -1e20, 2.0 ** 53, 2.0 ** 63, -(2.0 ** 63), 2.0 ** 64, 2.0 ** 100, 1.0 / 1024, 7.0, 12.0,
-             -0.0, 4.0, 8.0, 1e-3, 123456789.0, 2.0 ** 31, -(2.0 ** 31)]
+             -0.0, 4.0, 8.0, 1e-3, 123456789.0, 2.0 ** 31, -(2.0 ** 31),
+             2.0 ** 959, 2.0 ** 960, -(2.0 ** 960), 2.0 ** 1000, 1e300, 1.7976931348623157e308, -1.7976931348623157e308]      # the largest doubles: 15..16 limbs in the stack temporaries of mpirxx.h
 
 def rand_z(rng):
     r = rng.random()
